@@ -162,7 +162,7 @@ def eval_project(spec):
 def campaigns(tier):
     q = tier == "quick"
     return [
-        Campaign("limits", "hyp", evaluate=eval_project, strategy=lambda: gen.project_specs(PF), n=1200 if q else 24000, floor_nontrivial=0.2,
+        Campaign("limits", "hyp", evaluate=eval_project, strategy=lambda: gen.project_specs(PF), n=2400 if q else 24000, floor_nontrivial=0.2,
                  describe="D4: resource / group / task / task-group limits, 2-8 week projects around year ends, ASAP and ALAP"),
         Campaign("short_declared", "hyp", evaluate=eval_project, strategy=lambda: gen.project_specs(PF_SHORT), n=400 if q else 8000,
                  describe="declared length 2-7 days with work that overruns it (horizon extension)"),
